@@ -75,6 +75,13 @@ def rst(
     if nl or ("\n" in answer and nl is None):
         answer += "\n" + " " * indent
 
+    # The output is embedded in triple-quoted (raw) string literals, often
+    # directly before the closing quotes: a run of three double-quotes would
+    # end the literal early and a trailing backslash would escape its end.
+    answer = answer.replace('"""', '\\"\\"\\"')
+    if answer.endswith("\\"):
+        answer += " "
+
     # If the text ends in a double-quote, append a period.
     # This ensures that we do not get a parse error when this output is
     # followed by triple-quotes.
